@@ -11,7 +11,7 @@ from .c16 import compare_rgb, check_vef
 PROPERTY = "C17"
 LEVEL = "exploration"
 RULE = ("case = image (pixel kind chosen to make runs: flat, striped, runs, vertical repeats, random) x compressed layout "
-        "(MGE RLE, RAT escape coding, CM3 coded lines over 1/2 pages, squashed VEF types 0/1/3) x encoder preset (maximal "
+        "(MGE RLE - through mgetoppm and through the packaged viewer with Tk stubbed -, RAT escape coding, CM3 coded lines over 1/2 pages, squashed VEF types 0/1/3) x encoder preset (maximal "
         "runs, runs of length 1, runs at 127/128/129/254/255, random splitting, escape byte occurring as data, copy-left at "
         "column 0); also unsquash() under a direct contract; distinct = (layout, preset, pixel kind, seed); non-trivial = all")
 ASSUMPTIONS = ["file layouts of DESIGN.md Appendix C; reference encoders self-checked by reference expansion before use"]
@@ -78,6 +78,8 @@ def run_case(case):
            "sets": {"layouts": ["%s/%s" % (case["fmt"], case["preset"])]}}
     if case["fmt"] == "unsquash":
         return run_unsquash(case, obs)
+    if case["fmt"] == "mgeview":
+        return run_view(case, obs)
     fmt, data, exp, pix, pal = build(case)
     res = D.decode(fmt, data, [])
     cl = observe.classify(fmt, res)
@@ -104,6 +106,74 @@ def run_case(case):
     if case.get("sample"):
         obs["sample"] = {"format": fmt, "preset": case["preset"], "pixel_kind": case["kind"], "input_bytes": len(data),
                          "pixels_compared": n}
+    return obs
+
+
+class _TkStub(object):
+    """Stand-in for Tk / Canvas while the packaged viewer (entry point mge_viewer2) runs without a display."""
+
+    def __init__(self, *a, **kw):
+        pass
+
+    def __getattr__(self, name):
+        return lambda *a, **kw: None
+
+
+def view_frame(data):
+    """The frame the viewer hands to PhotoImage.put() for one MGE file, as a list of colour tokens."""
+    import io
+    import sys
+
+    import coco.mge_viewer2 as viewer
+
+    frames = []
+
+    class Photo(_TkStub):
+        def put(self, frame, *a, **kw):
+            frames.append(frame)
+
+    saved = (viewer.Tk, viewer.Canvas, viewer.PhotoImage, sys.stdout)
+    viewer.Tk, viewer.Canvas, viewer.PhotoImage = _TkStub, _TkStub, Photo
+    sys.stdout = io.StringIO()
+    try:
+        viewer.view(io.BytesIO(data))
+    finally:
+        viewer.Tk, viewer.Canvas, viewer.PhotoImage, sys.stdout = saved
+    if len(frames) != 1:
+        raise AssertionError("viewer showed %d frames" % len(frames))
+    return [t for t in frames[0].split() if t not in ("{", "}")]
+
+
+def run_view(case, obs):
+    """The second MGE decoder of the package (the Tk viewer): the frame for a run-length file is the frame for the
+    uncompressed file of the same picture."""
+    rng = random.Random(case["seed"])
+    pal = [p & 63 for p in M.rand_palette(rng)]
+    pix = M.rand_pixels(rng, 320, 200, case["kind"])
+    rgb = case.get("rgb", True)
+    packed = M.enc_mge(pix, pal, rgb, True, rng, case["preset"])
+    plain = M.enc_mge(pix, pal, rgb, False)
+    detail = {"case": case, "input_bytes": len(packed)}
+    try:
+        want = view_frame(plain)
+    except Exception as exc:  # noqa: BLE001 - the uncompressed form is the reference: without it nothing is decided
+        obs["counters"]["viewer_reference_failed"] = 1
+        obs["counters"]["pixels_compared"] = 0
+        return obs
+    try:
+        got = view_frame(packed)
+    except Exception as exc:  # noqa: BLE001
+        obs["viols"].append({"sig": "C17/mgeview/no-frame/%s" % type(exc).__name__, "detail": dict(detail, msg=str(exc)[:120])})
+        return obs
+    obs["counters"]["pixels_compared"] = min(len(got), len(want))
+    obs["counters"]["viewer_frames"] = 1
+    if got != want:
+        k = next((i for i in range(min(len(got), len(want))) if got[i] != want[i]), min(len(got), len(want)))
+        obs["viols"].append({"sig": "C17/mgeview/pixel-mismatch", "detail": dict(detail, first_mismatch={
+            "x": k % 320, "y": k // 320, "got": got[k] if k < len(got) else None, "expected": want[k] if k < len(want) else None},
+            pixels=(len(got), len(want)))})
+    elif len(want) != 64000:
+        obs["viols"].append({"sig": "C17/mgeview/frame-size", "detail": dict(detail, pixels=len(want))})
     return obs
 
 
@@ -150,6 +220,8 @@ def cases(tier, seed):
                 base = {"kind": kind, "preset": preset, "seed": seed * 104729 + n, "sample": n % 60 == 1}
                 if not q or (n % 2 == 0):
                     yield dict(base, fmt="mge", rgb=(n % 4 != 0))
+                if not q or (n % 3 == 0):
+                    yield dict(base, fmt="mgeview", rgb=(n % 2 != 0))
                 yield dict(base, fmt="rat", low3=True)
                 if not q or kind in ("runs", "vrepeat"):
                     yield dict(base, fmt="rat", low3=False)
